@@ -55,7 +55,7 @@ impl ScnB {
     pub fn sub(&mut self, kind: SubKind) -> SubId {
         let id = self.next_sub;
         self.next_sub += 1;
-        self.s.subs.push(SubSpec { id, kind, reads_state: false, gate: None, stall: Stall::None, via_trait: id % 3 == 2, forwards: false, on_unsub_ops: vec![], on_notify_ops: vec![] });
+        self.s.subs.push(SubSpec { id, kind, reads_state: false, gate: None, stall: Stall::None, via_trait: id % 3 == 2, forwards: false, on_unsub_ops: vec![], on_notify_ops: vec![], fn_wrapped: false });
         id
     }
     pub fn sub_mut(&mut self, id: SubId) -> &mut SubSpec {
